@@ -74,6 +74,31 @@ type script struct {
 	Vanish    int  // > 0: the client sends only the first Vanish lines of its request and goes away (the upgrader must fail; nothing else happens)
 	LongHdr   bool // both peers send a header line longer than the default I/O buffer (and shorter than two of them)
 	Debug     bool // the client dials through the process-wide wsutil.DebugDialer value
+	SrvShared bool // the server upgrades through the process-wide ws.HTTPUpgrader value (response headers and subprotocol check configured once)
+	WinBits   int  // > 0 (with Exact): both peers are configured with explicit window bits, as well as no context takeover
+}
+
+// sessionParams is the permessage-deflate configuration of a session.
+func sessionParams(sc *script) wsflate.Parameters {
+	if sc.WinBits == 0 {
+		return wsflate.DefaultParameters
+	}
+	return wsflate.Parameters{
+		ServerNoContextTakeover: true,
+		ClientNoContextTakeover: true,
+		ServerMaxWindowBits:     wsflate.WindowBits(sc.WinBits),
+		ClientMaxWindowBits:     wsflate.WindowBits(8 + (sc.WinBits+3)%8),
+	}
+}
+
+// SharedHTTPUpgrader is rebuilt by the driver before every run.
+var SharedHTTPUpgrader *ws.HTTPUpgrader
+
+func NewSharedHTTPUpgrader() *ws.HTTPUpgrader {
+	return &ws.HTTPUpgrader{
+		Header:   http.Header{"X-Server": []string{"sim"}},
+		Protocol: func(p string) bool { return p == "superchat" || p == "chat" },
+	}
 }
 
 var sizes = []int{0, 1, 10, 60, 65, 100, 125, 126, 127, 128, 200, 300, 1000, 4096, 5000, 70000}
@@ -131,6 +156,10 @@ func makeScript(seed uint64) *script {
 		sc.BadReq = 1 + p.intn(3)
 	}
 	sc.SrvDebug = sc.SrvKind == 0 && p.intn(2) == 0
+	sc.SrvShared = sc.SrvKind == 2 && !sc.Flate && p.intn(2) == 0
+	if sc.Exact && p.intn(2) == 0 {
+		sc.WinBits = 9 + p.intn(7)
+	}
 	if p.intn(5) == 0 {
 		sc.Steps = append(sc.Steps, exchange{Kind: exBadText, FromCli: p.intn(2) == 0, Text: true, Size: 3 + p.intn(40), Seed: p.next()})
 	}
@@ -374,7 +403,13 @@ var SharedFlateDialer *ws.Dialer
 func NewSharedDialer() *ws.Dialer {
 	offer := httphead.Option{Name: []byte("permessage-deflate")}
 	offer.Parameters.Set([]byte("client_max_window_bits"), nil)
-	return &ws.Dialer{Extensions: []httphead.Option{offer, wsflate.DefaultParameters.Option()}}
+	// A further extension of the application's own with more parameters than
+	// an option holds inline, in an order of its own.
+	own := httphead.Option{Name: []byte("x-sim-ext")}
+	for _, k := range []string{"p9", "p3", "p7", "p1", "p10", "p0", "p5", "p2", "p8", "p4"} {
+		own.Parameters.Set([]byte(k), []byte("v"+k))
+	}
+	return &ws.Dialer{Extensions: []httphead.Option{offer, wsflate.DefaultParameters.Option(), own}}
 }
 
 // runClient is the client task of a session.
@@ -417,7 +452,7 @@ func runClient(sc *script, conn net.Conn, tr *transcript) {
 		d = *SharedFlateDialer
 		d.Protocols = sc.Protocols
 		if sc.Exact {
-			d.Extensions = []httphead.Option{wsflate.DefaultParameters.Option()}
+			d.Extensions = []httphead.Option{sessionParams(sc).Option()}
 		}
 	}
 	u, _ := url.Parse(fmt.Sprintf("ws://example.com/session/%d", sc.Seed%1000))
@@ -509,7 +544,7 @@ func runServer(sc *script, conn net.Conn, tr *transcript) {
 			hs, err = ws.Upgrade(conn)
 		}
 	case 1:
-		ext := wsflate.Extension{Parameters: wsflate.DefaultParameters}
+		ext := wsflate.Extension{Parameters: sessionParams(sc)}
 		u := ws.Upgrader{Protocol: func(p []byte) bool { return accept(string(p)) }}
 		if sc.Flate {
 			u.Negotiate = ext.Negotiate
@@ -557,12 +592,19 @@ func runServer(sc *script, conn net.Conn, tr *transcript) {
 			tr.add("handshake: http.ReadRequest: %v", rerr)
 			return
 		}
-		ext := wsflate.Extension{Parameters: wsflate.DefaultParameters}
+		ext := wsflate.Extension{Parameters: sessionParams(sc)}
 		u := ws.HTTPUpgrader{Protocol: accept}
 		if sc.Flate {
 			u.Negotiate = ext.Negotiate
 		}
-		if len(sc.Protocols) == 0 && !sc.Flate {
+		if sc.SrvShared {
+			// Like an application with one configured upgrader for all its
+			// handlers.
+			_, _, hs, err = SharedHTTPUpgrader.Upgrade(req, &hijackRW{conn: conn, br: br, h: http.Header{}})
+			if h := SharedHTTPUpgrader.Header; len(h) != 1 || len(h["X-Server"]) != 1 || h["X-Server"][0] != "sim" {
+				tr.add("handshake: the shared upgrader's configured Header is not intact: %v", h)
+			}
+		} else if len(sc.Protocols) == 0 && !sc.Flate {
 			_, _, hs, err = ws.UpgradeHTTP(req, &hijackRW{conn: conn, br: br, h: http.Header{}})
 		} else {
 			_, _, hs, err = u.Upgrade(req, &hijackRW{conn: conn, br: br, h: http.Header{}})
